@@ -34,19 +34,20 @@ Legal(key, unicode, prefix) == /\ Encodable(key, unicode)
 
 (***************************** monitor *************************************)
 (* events: [e |-> "key", via, isstr, u, unicode, prefix, verdict, out]      *)
-(*   verdict "ok" (out = bytes returned / transmitted) | "illegal"          *)
+(*   verdict "ok" (out = bytes returned / transmitted) | "accepted" (passed *)
+(*   validation, but there was no server to transmit it to) | "illegal"     *)
 (*   (MemcacheIllegalInputError) | any other text = some other exception    *)
 KMonInit(h) == [n |-> 0]
 KMonClauses(m, ev) ==
   LET key == [isstr |-> ev.isstr, u |-> ev.u]
       w == IF Encodable(key, ev.unicode) THEN Wire(key, ev.unicode, ev.prefix) ELSE <<0>>
       inscope == Encodable(key, ev.unicode) => Len(w) > 0          \* prefixed form non-empty
-  IN << <<"C20-legal-key-is-accepted", (inscope /\ Legal(key, ev.unicode, ev.prefix)) => ev.verdict = "ok">>,
+  IN << <<"C20-legal-key-is-accepted", (inscope /\ Legal(key, ev.unicode, ev.prefix)) => ev.verdict \in {"ok", "accepted"}>>,
         <<"C20-accepted-key-is-transmitted-as-prefix-plus-encoding",
               (inscope /\ ev.verdict = "ok" /\ Legal(key, ev.unicode, ev.prefix)) => ev.out = w>>,
-        <<"C20-illegal-key-is-rejected", (inscope /\ ~Legal(key, ev.unicode, ev.prefix)) => ev.verdict # "ok">>,
+        <<"C20-illegal-key-is-rejected", (inscope /\ ~Legal(key, ev.unicode, ev.prefix)) => ev.verdict \notin {"ok", "accepted"}>>,
         <<"C20-rejection-is-MemcacheIllegalInputError",
-              (inscope /\ ~Legal(key, ev.unicode, ev.prefix)) => ev.verdict \in {"ok", "illegal"}>> >>
+              (inscope /\ ~Legal(key, ev.unicode, ev.prefix)) => ev.verdict \in {"ok", "accepted", "illegal"}>> >>
 KMonEffect(m, ev) == [m EXCEPT !.n = m.n + 1]
 KMonFinal(m) == <<>>
 =============================================================================
